@@ -61,6 +61,8 @@ func main() {
 		err = genGrpcWarmUp(os.Args[2], os.Args[3])
 	case "grpcctx":
 		err = genGrpcCtx(os.Args[2], os.Args[3])
+	case "jsontarget":
+		err = genJSONTarget(os.Args[2], os.Args[3])
 	default:
 		err = fmt.Errorf("unknown translator %q", os.Args[1])
 	}
